@@ -2,6 +2,7 @@ package main
 
 import (
 	"fmt"
+	"strings"
 	"time"
 
 	"go.flow.arcalot.io/engine/internal/verif/env"
@@ -44,7 +45,7 @@ func scenarioUnit(s *Scenario, opt exploreOpts, oracles ...Oracle) *Unit {
 			}
 		}
 		cfg := vrt.ExploreCfg{
-			Exec:     vrt.Config{Stalls: opt.stalls, StallMenu: len(opt.stalls) > 0, MapMenu: opt.mapMenu || opt.menu[vrt.KMap], Race: opt.race, PointHook: hook},
+			Exec:     vrt.Config{Stalls: opt.stalls, StallMenu: len(opt.stalls) > 0, MapMenu: opt.mapMenu || opt.menu[vrt.KMap], Race: opt.race || raceMode, PointHook: hook},
 			Bound:    opt.bound,
 			Menu:     opt.menu,
 			Deadline: deadline,
@@ -53,6 +54,9 @@ func scenarioUnit(s *Scenario, opt exploreOpts, oracles ...Oracle) *Unit {
 				var out []vrt.Violation
 				for _, o := range oracles {
 					out = append(out, o(s, x, &obs)...)
+				}
+				if raceMode {
+					out = append(out, raceViolations(x)...)
 				}
 				return out
 			},
@@ -270,6 +274,44 @@ func init() {
 					}
 				}
 			}
+			return us
+		}})
+	register(&PropCheck{ID: "C17", Level: "model_checking",
+		Rule:        "the executions of the run, cancel, provider-level, loop and overlapping-run checks (their quick bounds) are repeated on a build with memory-access probes on every field of the engine's own struct types reached through a pointer, every map and slice element and every package variable; a vector-clock (happens-before) detector reports two accesses to one location, one of them a write, that no tracked synchronisation orders, on any explored schedule whether or not the accesses were adjacent",
+		Assumptions: append([]string{"reads that follow a call inside one statement and loop conditions are not probed (counted by the rewriter: unprobed-read-after-call)", "locations inside third-party libraries are not probed; their internal locks add no happens-before edges"}, commonAssumptions...),
+		Budget:      budget(175*time.Second, 28*time.Minute),
+		Units: func(tier string) []*Unit {
+			raceMode = true
+			var us []*Unit
+			pick := func(id string, every int, maxUnits int) {
+				src := registry[id].Units(tier)
+				n := 0
+				for i, u := range src {
+					if i%every != 0 || n >= maxUnits {
+						continue
+					}
+					n++
+					u := u
+					us = append(us, &Unit{Name: id + ":" + u.Name, Run: func(deadline time.Time) *UnitResult {
+						res := u.Run(deadline)
+						var keep []vrt.FoundViolation
+						for _, v := range res.Violations {
+							if strings.HasPrefix(v.Key, "race/") {
+								keep = append(keep, v)
+							}
+						}
+						res.Violations = keep
+						return res
+					}})
+				}
+			}
+			q := tier != "thorough"
+			pick("C01", tierBound(tier, 3, 1), 100000)
+			pick("C06", tierBound(tier, 4, 1), 100000)
+			pick("C12", tierBound(tier, 2, 1), 100000)
+			pick("C13", tierBound(tier, 3, 1), 100000)
+			pick("C14", 1, 100000)
+			_ = q
 			return us
 		}})
 	register(&PropCheck{ID: "C07", Level: "model_checking",
